@@ -51,7 +51,7 @@ example :
   rcases hp with rfl | rfl | rfl <;> simp at hs <;> rcases hs with rfl | rfl <;> simp [Step.admissible]
 
 /-- **A shared scratch cell breaks it.**  Two threads each write their argument to one shared scratch
-    cell and read it back (the shape of `SubManifold::rplus` today): there is a schedule in which a
+    cell and read it back (the shape of `SubManifold::rplus` before the fix 34c8743): there is a schedule in which a
     thread obtains a result different from its sequential run. -/
 theorem scratch_breaks_it :
     ∃ sched, result sched [scratchOp 0 1, scratchOp 0 2] zeroShared 0 ≠ soloResult (scratchOp 0 1) zeroShared :=
@@ -91,42 +91,40 @@ namespace Gen
     member function that assigns to an inventory cell changes the left-hand side and breaks this. -/
 theorem inventory_eq_expected : C18.Gen.inventory = expectedInventory := by decide
 
-/-- Every cell of the scanned inventory other than the known findings is write-free for const
-    operations: not classified `writtenByConst`, and no function assigns it — except `perObject` cells,
-    which are mutated only inside an argument object owned by the individual call. -/
-theorem write_free_outside_known_findings :
-    ∀ e ∈ C18.Gen.inventory, e.name ∉ knownFindings →
-      e.cls ≠ .writtenByConst ∧ (e.writers = [] ∨ e.cls = .perObject) := by decide
+/-- **No cell is written by const operations.**  No cell of the scanned inventory is classified
+    `writtenByConst`, and no function assigns any cell after its initialisation — except `perObject`
+    cells, which are mutated only inside an argument object owned by the individual call
+    (`MinimizeOptions::strat`). -/
+theorem no_cell_written_by_const :
+    ∀ e ∈ C18.Gen.inventory, e.cls ≠ .writtenByConst ∧ (e.writers = [] ∨ e.cls = .perObject) := by decide
 
-/-- the known findings are really there (not hidden) and are classified as defects -/
-theorem known_findings_present :
-    ∀ n ∈ knownFindings, ∃ e ∈ C18.Gen.inventory, e.name = n ∧ e.cls = .writtenByConst ∧ e.writers ≠ [] := by decide
+/-- there is no exception list: the known findings are empty (the former `SubManifold::m_calc` defect is
+    fixed in the tree, and the scan no longer finds the cell) -/
+theorem no_known_findings :
+    knownFindings = [] ∧ ∀ e ∈ C18.Gen.inventory, e.name ≠ "SubManifold::m_calc" := by decide
 
-/-- the scanned inventory with the known findings removed -/
-def sound : List Entry := C18.Gen.inventory.filter (fun e => !knownFindings.contains e.name)
-
-/-- The const operations of the library as the scanned inventory describes them, minus the known
-    findings, are schedule independent for any number of threads and every schedule. -/
+/-- The const operations of the library as the scanned inventory describes them — the WHOLE inventory,
+    nothing removed — are schedule independent for any number of threads and every schedule. -/
 theorem scanned_ops_schedule_independent (args : List Val) (s0 : Shared) (sched : List Nat) (i : Nat)
-    (hdone : ((args.map (opSteps sound 0)).getD i []).length ≤ cnt i sched) :
-    result sched (args.map (opSteps sound 0)) s0 i = soloResult ((args.map (opSteps sound 0)).getD i []) s0 :=
-  inventory_ops_schedule_independent sound (by decide) args s0 sched i hdone
+    (hdone : ((args.map (opSteps C18.Gen.inventory 0)).getD i []).length ≤ cnt i sched) :
+    result sched (args.map (opSteps C18.Gen.inventory 0)) s0 i =
+      soloResult ((args.map (opSteps C18.Gen.inventory 0)).getD i []) s0 :=
+  inventory_ops_schedule_independent C18.Gen.inventory (by decide) args s0 sched i hdone
 
-/-- Every known finding of the scanned inventory has a counter schedule in the model
-    (`SubManifold::m_calc`: two threads calling `rplus` on one shared const SubManifold). -/
-theorem known_findings_have_counter_schedule :
-    ∀ e ∈ C18.Gen.inventory, e.name ∈ knownFindings → ∀ (c : Cell) (s0 : Shared),
-      ∃ sched, result sched [e.steps c 1, e.steps c 2] s0 0 ≠ soloResult (e.steps c 1) s0 := by
-  intro e he hk c s0
-  have hc : e.cls = .writtenByConst := by
-    have : ∀ e ∈ C18.Gen.inventory, e.name ∈ knownFindings → e.cls = .writtenByConst := by decide
-    exact this e he hk
-  exact writtenByConst_yields_counter_schedule e hc c s0
+/-- Sensitivity of the tie: putting the former defect back into the scanned inventory (what the scanner
+    emits when a const member writes a `mutable` member) falsifies the hypothesis of the safety theorem and
+    yields a counter schedule in the model. -/
+theorem reintroduced_scratch_has_counter_schedule :
+    let e : Entry := ⟨"SubManifold::m_calc", .mutableMember, false, .writtenByConst, ["SubManifold::rplus", "SubManifold::rminus"]⟩
+    (¬ ∀ x ∈ e :: C18.Gen.inventory, x.cls ≠ .writtenByConst) ∧
+      ∀ (c : Cell) (s0 : Shared), ∃ sched, result sched [e.steps c 1, e.steps c 2] s0 0 ≠ soloResult (e.steps c 1) s0 := by
+  refine ⟨by decide, fun c s0 => writtenByConst_yields_counter_schedule _ rfl c s0⟩
 
 /-- non-vacuity of `scanned_ops_schedule_independent`: 3 threads, a concrete complete schedule -/
-example : (opSteps sound 0 5).length = 16 ∧
-    result (List.replicate 16 2 ++ List.replicate 16 0 ++ List.replicate 16 1) ([5, 6, 7].map (opSteps sound 0)) zeroShared 1
-      = soloResult (opSteps sound 0 6) zeroShared := by
+example : (opSteps C18.Gen.inventory 0 5).length = 16 ∧
+    result (List.replicate 16 2 ++ List.replicate 16 0 ++ List.replicate 16 1)
+        ([5, 6, 7].map (opSteps C18.Gen.inventory 0)) zeroShared 1
+      = soloResult (opSteps C18.Gen.inventory 0 6) zeroShared := by
   refine ⟨by decide, ?_⟩
   exact scanned_ops_schedule_independent [5, 6, 7] zeroShared _ 1 (by decide)
 
